@@ -171,6 +171,16 @@ def seqOp (s : Seq) : P (Except Err (Seq × String)) := do
   | "overwriteRel" => do let ms ← msgs; pure (.ok (s.overwriteRel ms, "ok"))
   | "editAbs" => do let k ← pnat; let a ← pint; pure ((s.editAbs (editFn k a)).map (·, "ok"))
   | "editRel" => do let k ← pnat; let a ← pint; pure ((s.editRel (editFn k a)).map (·, "ok"))
+  -- reading the other view between receiving a message and editing it does not change the outcome
+  | "editAbsPeek" => do let k ← pnat; let a ← pint; pure ((s.editAbs (editFn k a)).map (·, "ok"))
+  | "editRelPeek" => do let k ← pnat; let a ← pint; pure ((s.editRel (editFn k a)).map (·, "ok"))
+  -- edit only the first yielded message, then abandon the iterator (its `finally` still invalidates)
+  | "editAbsFirst" => do
+    let k ← pnat; let a ← pint
+    pure ((s.onAbs (fun l => .ok (match l with | [] => [] | m :: ms => editFn k a m :: ms))).map (·, "ok"))
+  | "editRelFirst" => do
+    let k ← pnat; let a ← pint
+    pure ((s.onRel (fun l => .ok (match l with | [] => [] | m :: ms => editFn k a m :: ms))).map (·, "ok"))
   | "transpose" => do
     let b ← pint
     pure ((Seq.transposeSeq env s b).map (fun (s, f) => (s, pBool f)))
